@@ -14,8 +14,8 @@ META = {
              "clause (EMIT-CONVERT); no finally block on the chain returns / breaks, which would discard the exception in flight (FINALLY-NO-JUMP). Necessary conditions of C16 for directly connected pipelines; buffered/asynchronous nodes are "
              "outside the property's premise.",
     'note': "Trusted: exceptional edges = every call-out inside a try body; logging calls do not raise.",
-    'technique': "static analysis: exceptional-edge path enumeration + effect ordering (RERAISE, STATE-AFTER-CALL, "
-                 "STATE-FROM-RESULT, NO-REL-ON-FAIL, SYNC-TRANSPORT)",
+    'technique': "static analysis: exceptional-edge path enumeration + effect ordering + symbolic normal forms (RERAISE, STATE-AFTER-CALL, "
+                 "STATE-FROM-RESULT, NO-REL-ON-FAIL, SYNC-TRANSPORT, FINALLY-NO-JUMP, AWAITABLE-RESULT, WINDOW-FIFO)",
 }
 
 
@@ -46,3 +46,4 @@ def run(ctx, R):
 
 
 META['level'] += ' No gather(..., return_exceptions=True) on the delivery chain (NO-SWALLOWING-GATHER); accumulate commits its state before delivering (ACC-CONTRACT).'
+META['level'] += ' Also: a handler for a general exception type may not swallow a container operation on an element-derived value (key comparison is user code); a sink hands back whatever awaitable its function returned (AWAITABLE-RESULT); the window history kept in accumulate.state is copied, never edited in place (WINDOW-FIFO).'
